@@ -37,6 +37,9 @@ pub struct Trace {
     /// element type is larger than a cache line (136 bytes)
     #[serde(default)]
     pub big_elem: bool,
+    /// element type larger than 64 KiB (1: 65 600 bytes) or than 1 MiB (2)
+    #[serde(default)]
+    pub huge_elem: u8,
     /// the element type overrides `ne` inconsistently with `eq` (0: consistent, 1: always false, 2: always true);
     /// the property speaks of equality only
     #[serde(default)]
@@ -145,6 +148,29 @@ impl PartialEq for Big {
 impl Elem for Big {
     fn make(class: u32, uid: u32) -> Big {
         Big { class, uid, _pad: [uid as u64; 16] }
+    }
+    fn uid(&self) -> u32 {
+        self.uid
+    }
+}
+
+/// larger than 64 KiB / 1 MiB: any block-wise or byte-offset arithmetic on the element size meets its 16- and 20-bit boundaries
+#[derive(Debug)]
+struct Huge<const N: usize> {
+    class: u32,
+    uid: u32,
+    _pad: [u8; N],
+}
+
+impl<const N: usize> PartialEq for Huge<N> {
+    fn eq(&self, other: &Huge<N>) -> bool {
+        counted_eq(self.class, self.uid, other.class, other.uid)
+    }
+}
+
+impl<const N: usize> Elem for Huge<N> {
+    fn make(class: u32, uid: u32) -> Huge<N> {
+        Huge { class, uid, _pad: [uid as u8; N] }
     }
     fn uid(&self) -> u32 {
         self.uid
@@ -577,7 +603,15 @@ impl Property for C19 {
             }
         }
         let kind = rng.below(8);
-        Trace { enum_elem: !zst && kind < 2, big_elem: !zst && kind == 2, ne_mode: if rng.chance(1, 6) { rng.range(1, 2) as u8 } else { 0 }, prefill, zst, relation, unwind_at: if zst || prefill > 0 { None } else { unwind_at }, ops }
+        let huge_elem = if !zst && prefill == 0 && rng.chance(1, 1500) {
+            if rng.chance(1, 12) { 2 } else { 1 }
+        } else {
+            0
+        };
+        if huge_elem == 2 {
+            ops.truncate(8);
+        }
+        Trace { huge_elem, enum_elem: !zst && kind < 2, big_elem: !zst && kind == 2, ne_mode: if rng.chance(1, 6) { rng.range(1, 2) as u8 } else { 0 }, prefill, zst, relation, unwind_at: if zst || prefill > 0 { None } else { unwind_at }, ops }
     }
 
     fn execute(t: &Trace, cov: &mut Cov) -> RunOut {
@@ -588,7 +622,13 @@ impl Property for C19 {
         if t.ne_mode != 0 {
             cov.hit("reached.ne_inconsistent_with_eq");
         }
-        let r = if t.enum_elem {
+        let r = if t.huge_elem == 1 {
+            cov.hit("reached.element_larger_than_64KiB");
+            run_history::<Huge<65_592>>(t, cov)
+        } else if t.huge_elem >= 2 {
+            cov.hit("reached.element_larger_than_1MiB");
+            run_history::<Huge<1_048_592>>(t, cov)
+        } else if t.enum_elem {
             cov.hit("reached.enum_element_type");
             run_history::<E>(t, cov)
         } else if t.big_elem {
@@ -613,10 +653,16 @@ impl Property for C19 {
             c.relation = Relation::ByClass;
             out.push(c);
         }
-        if t.enum_elem || t.big_elem {
+        if t.enum_elem || t.big_elem || t.huge_elem != 0 {
             let mut c = t.clone();
             c.enum_elem = false;
             c.big_elem = false;
+            c.huge_elem = 0;
+            out.push(c);
+        }
+        if t.huge_elem == 2 {
+            let mut c = t.clone();
+            c.huge_elem = 1;
             out.push(c);
         }
         if t.ne_mode != 0 {
@@ -667,7 +713,7 @@ impl Property for C19 {
         Meta {
             level: "exploration",
             rule: "each run is a seeded history of 1-40 append/fetch_or_append/lookup operations on one Storage under one equality relation (by-class, NaN-like, non-transitive) with an optional unwinding comparison; the abstract trace is the sequence of (operation, outcome: appended/found/unwound); a run is non-trivial if it appended >= 3 values or its unwind fault fired; distinct = distinct abstract traces among non-trivial runs",
-            lanes: "element types: struct, two-variant enum, zero-sized, 136-byte; irreflexive relation; `ne` inconsistent with `eq`; storages pre-filled with 3e3..9e3 (1/400 runs) and 2^16..1.1e6 (1/40000 runs) values",
+            lanes: "element types: struct, two-variant enum, zero-sized, 136-byte, 65 600-byte (1/1500 runs), 1 MiB+ (1/18000 runs); irreflexive relation; `ne` inconsistent with `eq`; storages pre-filled with 3e3..9e3 (1/400 runs) and 2^16..1.1e6 (1/40000 runs) values",
             triple_measure: "(relation, operation, outcome)",
             item_measure: "n/a",
             assumptions: &[
